@@ -95,6 +95,9 @@ func (s *session) probeHTTP(phase string, c *client) {
 		s.probes++
 		s.eval()
 		s.distinct(cfg.String(), "http", p.Method, p.Class, p.Variant, cs.Name, phase)
+		if s.probes%397 == 1 {
+			s.r.Sample(map[string]any{"configuration": cfg.String(), "protocol": "http", "method": p.Method, "path": p.Path, "credential": cs.Name, "phase": phase, "status": res.Status})
+		}
 		s.note("HTTP %s %s [%s] cred=%s phase=%s -> %d %v", p.Method, p.Path, p.Variant, cs.Name, phase, res.Status, res.Err)
 		cnt := func(outcome string) { s.count(fmt.Sprintf("http.%s.%s.%s", cfg.authName(), credClass(cs), outcome)) }
 		tuple := fmt.Sprintf("http|%s|%s|%s|%s", p.Method, p.Class, p.Variant, cs.Name)
